@@ -1,7 +1,8 @@
 """C03 - wrong-path (speculative) instructions leave no architectural trace."""
 from . import syscheck, sysdiff as S
 
-PROFILES = [('shadow', 2), ('ldslow', 1.5), ('branch', 1.5), ('loops', 1), ('ssa', 1.5), ('ssamem', 1.5), ('mixed', 1)]
+PROFILES = [('shadow', 2), ('ldslow', 1.5), ('branch', 1.5), ('loops', 1), ('ssa', 1.5), ('ssamem', 1.5), ('mixed', 1),
+            ('ssabr1', 4), ('ssabr', 2), ('ssald', 1)]
 
 
 def run(ctx):
@@ -10,5 +11,5 @@ def run(ctx):
         assumptions=['a wrong-path effect is observed as a difference from the sequential final state (registers, memory), an error, a panic or a hang',
                      'MVP-6.0/6.1 write back wrong-path results by design (README); those cells are outside the domain and listed as known findings'],
         text_rule='branch-shadow programs: taken and not-taken conditional branches and jumps whose shadow holds register writes, stores, loads, '
-                  'jal and nested branches, conditions fed by slow loads so that the shadow progresses; MVP-4..8 x parallelism 1..4 inside the calibrated domains; '
+                  'jal and nested branches, conditions fed by slow loads so that the shadow progresses; single-assignment programs with one load feeding the branch conditions and ret / jal / fresh-register writes in the shadow (ssabr, ssabr1: the clean domain of MVP-6.2..8.0 at 2..4 units); MVP-4..8 x parallelism 1..4 inside the calibrated domains; '
                   'non-trivial = at least one branch or jump with a non-empty shadow')
